@@ -432,6 +432,16 @@ func judge(e *env, c *Case, o *obs) (class, what, label string) {
 		return "", "", "may/nothing-negotiated"
 	}
 	liveCT := mediaPart(o.w.h.Get("Content-Type"))
+	defProd := e.reg[mediaPart(def)]
+	if def == "" {
+		defProd = nil
+	}
+	// noProducerFor: the media type is a negotiable one, no producer is registered for it and
+	// the API has no registered default producer either. The text ("exactly what the producer
+	// registered for that media type writes") presupposes a producer: how such a request
+	// fails is open - the declared status line and then a panic, or an error answer through
+	// the error responder - as long as nobody writes a body.
+	noProducerFor := func(m string) bool { return allowed[m] && e.reg[m] == nil && defProd == nil }
 	if c.Via == "direct" && !isResult(c.Outcome) {
 		// a Responder is handed "the producer registered for the media type" of its route;
 		// without a route (or with one that has no producers) the text forces nothing
@@ -447,6 +457,9 @@ func judge(e *env, c *Case, o *obs) (class, what, label string) {
 			return fail("panic", "the Responder to be handed the producer of the negotiated type")
 		}
 		if len(o.errCalls) > 0 {
+			if noProducerFor(liveCT) && len(o.respCalls) == 0 && len(o.prodCalls) == 0 {
+				return "", "", "may/no-producer-error-answer"
+			}
 			return fail("result-treated-as-error", "the Responder to be invoked, not the error responder")
 		}
 		switch {
@@ -477,6 +490,9 @@ func judge(e *env, c *Case, o *obs) (class, what, label string) {
 			return fail("panic", "middleware.Error to be handed the producer of the negotiated type")
 		}
 		if len(o.errCalls) > 0 {
+			if noProducerFor(liveCT) && len(o.respCalls) == 0 && len(o.prodCalls) == 0 {
+				return "", "", "may/no-producer-error-answer"
+			}
 			return fail("result-treated-as-error", "the Responder to be invoked, not the error responder")
 		}
 		if !o.w.committed {
@@ -510,8 +526,13 @@ func judge(e *env, c *Case, o *obs) (class, what, label string) {
 		// only a default response is declared: there is no declared success status
 		return "", "", "may/default-only"
 	}
+	only204 := len(codes) == 1 && codes[http.StatusNoContent]
+	needsProducer := c.Method != http.MethodHead && !only204
 	if !o.w.committed {
 		if o.panicked != "" {
+			if needsProducer && noProducerFor(liveCT) && len(o.prodCalls) == 0 {
+				return "", "", "may/no-producer-panic"
+			}
 			return fail("panic", "a response with the declared success status")
 		}
 		return fail("no-response", "a response with the declared success status")
@@ -520,6 +541,14 @@ func judge(e *env, c *Case, o *obs) (class, what, label string) {
 	m := mediaPart(rawCT)
 	if !allowed[m] {
 		return fail("wrong-content-type", "Content-Type = the negotiated media type")
+	}
+	if needsProducer && noProducerFor(m) {
+		if len(o.prodCalls) > 0 || (o.w.status < 300 && o.w.body.Len() > 0) {
+			return fail("body-without-registered-producer", "no body: no producer is registered for the negotiated type nor as default")
+		}
+		if len(o.errCalls) == 1 && o.errCalls[0].err != nil {
+			return "", "", "may/no-producer-error-answer"
+		}
 	}
 	if !anyStatus && !codes[o.w.status] {
 		return fail("wrong-status", fmt.Sprintf("the declared success status %v", c.Responses))
@@ -545,10 +574,6 @@ func judge(e *env, c *Case, o *obs) (class, what, label string) {
 		return "", "", "may/unregistered-producer"
 	}
 	hasParams := strings.Contains(rawCT, ";")
-	defProd := e.reg[mediaPart(def)]
-	if def == "" {
-		defProd = nil
-	}
 	want := render(p.tag, o.retVal)
 	if o.panicked != "" {
 		if hasParams && defProd == nil && len(o.prodCalls) == 0 && strings.Contains(o.panicked, "can't find a producer") {
